@@ -33,6 +33,12 @@ class Ctx:
         self.signcache = {}
         self.log = []         # notes for the evidence file (hints used, signs proved ...)
         self.ufs = {}
+        self.hyp = {}         # key(value term) -> (R cosh, R sinh)
+        self.rules = []       # rewrite rules (name, k, num term, den term): name^k * den = num
+        self.reduce = True
+        self.nf_closed = 0
+        self.nfcache = {}
+        self.defines = {}     # constraint id -> explicit set of variable names it defines (for slicing)
         self.inner_queries = 0
         self.inner_time = 0.0
         # forking driver state
@@ -53,7 +59,10 @@ class Ctx:
         if name not in self.atoms:
             c, s = z3.Real(f"c_{name}"), z3.Real(f"s_{name}")
             self.atoms[name] = (R.of(c), R.of(s))
-            self.cons.append(c * c + s * s == 1)
+            con = c * c + s * s == 1
+            self.cons.append(con)
+            self.defines[con.get_id()] = {str(c), str(s)}
+            self.rules.append((str(s), 2, 1 - c * c, z3.RealVal(1)))
         return self.atoms[name]
 
     def assume(self, *cs):
@@ -571,6 +580,7 @@ class R:
             q = CTX.fresh("sq")
             CTX.cons.append(q * q * d == n)
             CTX.cons.append(q >= 0)
+            CTX.rules.append((str(q), 2, n, d))
             r = R.of(q)
             r.rad = inner
         CTX.roots[kk] = r
@@ -588,6 +598,7 @@ class R:
             p = p * q
         CTX.cons.append(p * d == n)
         CTX.cons.append(q >= 0)
+        CTX.rules.append((str(q), k, n, d))
         r = R.of(q)
         CTX.roots[kk] = r
         return r
@@ -600,10 +611,10 @@ class R:
         if s.lin is None:
             if not s.f and s.coef == 0:
                 return R.const(1), R.const(0)
-            raise NotImplementedError("cos/sin of a non-angle value: " + _short(s))
+            return opaque_atom(s)
         d, p, sc = s.lin
         if sc is not None:
-            raise NotImplementedError("cos/sin of a scaled angle (scale not cancelled): " + _short(sc))
+            return opaque_atom(s)
         q = p * 2
         if q.denominator != 1:
             raise NotImplementedError(f"cos/sin at pi*{p}")
@@ -671,6 +682,55 @@ class R:
         CTX.cons += [v > -PI_T, v <= PI_T]
         return r
 
+    # ---- hyperbolic functions: atoms (ch, sh) on the unit hyperbola ch^2 - sh^2 = 1, ch >= 1, sign(sh) = sign(x)
+    def _hyp(s):
+        if not s.f and s.coef == 0:
+            return R.const(1), R.const(0)
+        if len(s.f) == 1 and abs(s.coef) == 1:
+            (k, (t, e)), = s.f.items()
+            if e == 1 and k in CTX.hyp:
+                ch, sh = CTX.hyp[k]
+                return (ch, sh) if s.coef == 1 else (ch, -sh)
+        n, d = s.num_den()
+        kk = "hopq:" + z3.simplify(n * z3.Real("__k1") - d * z3.Real("__k2"), som=True).sexpr()
+        if kk not in CTX.roots:
+            CTX.n += 1
+            ch, sh = z3.Real(f"ch_opq!{CTX.n}"), z3.Real(f"sh_opq!{CTX.n}")
+            t = s.term()
+            con = z3.And(ch * ch - sh * sh == 1, ch >= 1, z3.Implies(t > 0, sh > 0), z3.Implies(t < 0, sh < 0),
+                         z3.Implies(t == 0, sh == 0))
+            CTX.cons.append(con)
+            CTX.defines[con.get_id()] = {str(ch), str(sh)}
+            CTX.rules.append((str(sh), 2, ch * ch - 1, z3.RealVal(1)))
+            CTX.roots[kk] = (R.of(ch), R.of(sh))
+            CTX.log.append("opaque hyperbolic atom for " + _short(s, 60))
+        return CTX.roots[kk]
+
+    def cosh(s):
+        return s._hyp()[0]
+
+    def sinh(s):
+        return s._hyp()[1]
+
+    def arctanh(s):
+        rho = (1 - s * s).sqrt()
+        CTX.n += 1
+        v = z3.Real(f"val_atanh{CTX.n}")
+        CTX.hyp[key(v)] = (1 / rho, s / rho)
+        return R.of(v)
+
+    @staticmethod
+    def hangle(name):
+        v = z3.Real(f"val_{name}")
+        ch, sh = z3.Real(f"ch_{name}"), z3.Real(f"sh_{name}")
+        CTX.hyp[key(v)] = (R.of(ch), R.of(sh))
+        con = z3.And(ch * ch - sh * sh == 1, ch >= 1, z3.Implies(v > 0, sh > 0), z3.Implies(v < 0, sh < 0),
+                     z3.Implies(v == 0, sh == 0))
+        CTX.cons.append(con)
+        CTX.defines[con.get_id()] = {str(ch), str(sh)}
+        CTX.rules.append((str(sh), 2, ch * ch - 1, z3.RealVal(1)))
+        return R.of(v)
+
     def degrees(s):
         return s * 180 / PI
 
@@ -693,13 +753,40 @@ def _short(r, n=100):
     return f"{r.coef}*{fs}"[:n].replace("\n", " ")
 
 
+def opaque_atom(x):
+    """(cos x, sin x) for a value that has no angle view: one unit-circle atom per distinct term (same term -> same
+    atom), with the sound facts  x=0 => (1,0)  and  0<|x|<2pi => cos x < 1"""
+    n, d = x.num_den()
+    kk = "opq:" + z3.simplify(n * z3.Real("__k1") - d * z3.Real("__k2"), som=True).sexpr()
+    if kk not in CTX.roots:
+        nm = f"opq{CTX.n}"
+        CTX.n += 1
+        c, s = z3.Real(f"c_{nm}!{CTX.n}"), z3.Real(f"s_{nm}!{CTX.n}")
+        CTX.n += 1
+        t = x.term()
+        con = z3.And(c * c + s * s == 1,
+                     z3.Implies(t == 0, z3.And(c == 1, s == 0)),
+                     z3.Implies(z3.And(t != 0, t < 2 * PI_T, t > -2 * PI_T), c < 1),
+                     z3.Implies(z3.And(t > 0, t < PI_T), s > 0),
+                     z3.Implies(z3.And(t < 0, t > -PI_T), s < 0))
+        CTX.cons.append(con)
+        CTX.defines[con.get_id()] = {str(c), str(s)}
+        CTX.rules.append((str(s), 2, 1 - c * c, z3.RealVal(1)))
+        CTX.roots[kk] = (R.of(c), R.of(s))
+        CTX.log.append("opaque angle atom for cos/sin of " + _short(x, 60))
+    return CTX.roots[kk]
+
+
 def half_atom(a):
     nm = a + "_half"
     if nm not in CTX.atoms:
         ch, sh = CTX.atom(nm)
         c, s = CTX.atom(a)
-        CTX.cons.append(c.n == ch.n * ch.n - sh.n * sh.n)
-        CTX.cons.append(s.n == 2 * sh.n * ch.n)
+        for con in (c.n == ch.n * ch.n - sh.n * sh.n, s.n == 2 * sh.n * ch.n):
+            CTX.cons.append(con)
+            CTX.defines[con.get_id()] = {str(ch.n), str(sh.n)}
+        CTX.rules.append((str(c.n), 1, ch.n * ch.n - sh.n * sh.n, z3.RealVal(1)))
+        CTX.rules.append((str(s.n), 1, 2 * sh.n * ch.n, z3.RealVal(1)))
     return nm
 
 
@@ -764,6 +851,9 @@ def neq(a, b):
     n = z3.RealVal(1)
     for t, e in d.f.values():
         if e > 0:
+            if CTX.reduce and _reduces_to_zero(t):
+                CTX.nf_closed += 1
+                return z3.BoolVal(False)
             n = n * t  # t^e != 0 <=> t != 0
     if not d.f:
         return z3.BoolVal(True)
@@ -772,6 +862,24 @@ def neq(a, b):
 
 def eq(a, b):
     return z3.Not(neq(a, b))
+
+
+def _reduces_to_zero(t):
+    """normal form of t modulo the root / atom definitions is the zero polynomial (sufficient for t == 0)"""
+    from . import poly
+    k = (t.get_id(), len(CTX.rules))
+    if k in CTX.nfcache:
+        return CTX.nfcache[k]
+    res = False
+    try:
+        cache = {}
+        rules = [(nm, kk, poly.to_poly(n, cache), poly.to_poly(d, cache)) for nm, kk, n, d in reversed(CTX.rules)]
+        p = poly.normal_form(poly.to_poly(t, cache), rules)
+        res = p.is_zero()
+    except poly.TooBig:
+        res = False
+    CTX.nfcache[k] = res
+    return res
 
 
 def _vars(t, acc=None):
@@ -809,7 +917,9 @@ def sliced(goals, extra=()):
     for c in CTX.cons:
         vs = _vars(c)
         aux = [v for v in vs if _aux(v)]
-        df = {max(aux, key=_num)} if aux else set()
+        df = CTX.defines.get(c.get_id())
+        if df is None:
+            df = {max(aux, key=_num)} if aux else set()
         cons.append((c, vs, df))
     used = [False] * len(cons)
     changed = True
